@@ -155,6 +155,32 @@ def w_hier(case):
         post = chi.HierarchicalLogPosterior(hl, hier.build_prior(nt))
         out += check_pair(viol, lab + ' +prior', post, post.evaluateS1, x,
                           lambda z: hier.ref_score(case, z, True), n, fd=False)
+    if case.get('int_vec'):
+        # a whole-number vector handed over as an integer array / list of ints has
+        # the gradient of the same vector given as floats
+        nb = rp.n_bottom(case['spec'], case['n_ids'])
+        v3 = np.maximum(1, np.round(np.abs(x)))
+        v3[nb:] += 3
+        s_f, g_f = hl.evaluateS1(v3.copy())
+        eg = cstep.grad(lambda z: hier.ref_score(case, z), v3)
+        for form, arg in (('int array', v3.astype(int)),
+                          ('list of ints', [int(q) for q in v3])):
+            try:
+                s_i, g_i = hl.evaluateS1(arg)
+            except Exception as e:
+                viol.append({'sub': 'int_vec', 'message': 'evaluateS1 raises for a '
+                             'whole-number vector passed as %s although plain '
+                             'evaluation is finite (%s): %s' % (form, lab, e),
+                             'expected': 'gradient', 'observed': repr(e)[:200],
+                             'behaviour': 'grad'})
+                break
+            if not tol.close(s_i, s_f) or not tol.allclose(
+                    np.asarray(g_i, dtype=float), eg, 1e-7, 1e-8):
+                viol.append({'sub': 'int_vec', 'message': 'sensitivities for a '
+                             'whole-number vector passed as %s are not the '
+                             'derivatives (%s)' % (form, lab), 'expected': eg,
+                             'observed': g_i, 'behaviour': 'grad'})
+                break
     return {'transitions': 10, 'outcome': tol.rnd(out), 'violations': viol}
 
 
@@ -374,6 +400,13 @@ def build(tier, seed):
             # finite differences on a subset only (cost)
             c['fd'] = (n_ids == 1) or tier == 'thorough' and n_ids == 2
             hc.append(c)
+    # whole-number vectors in integer form (bare and composed population models)
+    for spec in [rp.P(3), rp.G(3), rp.LN(3, False), rp.H(3)] + \
+            hier.structures(3, ['G', 'LNnc', 'P', 'Cov(G)'])[::3]:
+        c = hier.make_case(spec, 2, seed)
+        c['int_vec'] = True
+        c['fd'] = False
+        hc.append(c)
     if tier == 'thorough':
         # 4-dimensional bottom level (two-parameter error model): every sequence of
         # one or two sub-models and every third longer one
@@ -445,9 +478,12 @@ def build(tier, seed):
     fspecs = [rp.Comp([rp.G(1), rp.LN(1, False), rp.P(1)]), rp.G(3),
               rp.Comp([rp.H(1), rp.LN(2)]), rp.Comp([rp.Cov(rp.G(1)), rp.G(2, False)])]
     for spec in fspecs:
-        for filt in (('G', 2), ('GKDE', 2), ('LN', 2)):
+        for filt in (('G', 2), ('GKDE', 2), ('LN', 2),
+                     [('G', 1, 2), ('GKDE', 2, 2)], [('LN', 2, 2), ('G', 1, 2)]):
             for n_obs in (1, 2):
                 for T in (1, 2, 3):
+                    if isinstance(filt, list) and T != 3:
+                        continue
                     for sigma_free in (False, True):
                         if tier == 'quick' and sigma_free and T == 2:
                             continue
